@@ -657,6 +657,7 @@ type ZK struct {
 	env     *Env
 	Fail    int           // fail the next n lookups
 	Delay   time.Duration // delay of each lookup
+	Started int           // lookups begun (Queries lists them when they end)
 	Queries []ZKQuery
 }
 
@@ -675,6 +676,7 @@ func (z *ZK) locateResource(r zk.ResourceName) (string, error) {
 	}
 	e.lock()
 	q := ZKQuery{Res: string(r), At: e.Now(), Step: e.Step}
+	z.Started++
 	delay := z.Delay
 	e.unlock()
 	if delay > 0 {
